@@ -1,0 +1,71 @@
+// Copyright 2026 SCION Association
+//
+// Licensed under the Apache License, Version 2.0 (the "License");
+// you may not use this file except in compliance with the License.
+// You may obtain a copy of the License at
+//
+//   http://www.apache.org/licenses/LICENSE-2.0
+//
+// Unless required by applicable law or agreed to in writing, software
+// distributed under the License is distributed on an "AS IS" BASIS,
+// WITHOUT WARRANTIES OR CONDITIONS OF ANY KIND, either express or implied.
+// See the License for the specific language governing permissions and
+// limitations under the License.
+
+//go:build verif
+
+package dataplane
+
+import (
+	"context"
+	"io"
+
+	"github.com/scionproto/scion/pkg/snet"
+	"github.com/scionproto/scion/private/ringbuf"
+)
+
+// Thin exports for the external verification module (/verif). No behaviour of its own.
+
+const (
+	VerifMinMTU            = minMTU
+	VerifHdrLen            = hdrLen
+	VerifReassemblyListCap = reassemblyListCap
+)
+
+// VerifEncoder exposes the egress frame encoder.
+type VerifEncoder struct{ e *encoder }
+
+func VerifNewEncoder(sessionID uint8, streamID uint32, mtu uint16) VerifEncoder {
+	return VerifEncoder{e: newEncoder(sessionID, streamID, mtu)}
+}
+
+func (v VerifEncoder) Write(pkt []byte) { v.e.Write(pkt) }
+func (v VerifEncoder) Read() []byte     { return v.e.Read() }
+func (v VerifEncoder) Close()           { v.e.Close() }
+
+// VerifWorker exposes the ingress worker (frame decapsulation / reassembly).
+type VerifWorker struct{ w *worker }
+
+func VerifNewWorker(remote *snet.UDPAddr, sessID uint8, tunIO io.WriteCloser) VerifWorker {
+	return VerifWorker{w: newWorker(remote, sessID, tunIO, IngressMetrics{})}
+}
+
+// ProcessFrame hands one received frame to the worker the way IngressServer.read does: the bytes are
+// placed in a pooled frame buffer, frameLen and sessId are set, then worker.processFrame runs.
+func (v VerifWorker) ProcessFrame(ctx context.Context, data []byte) {
+	frames := make(ringbuf.EntryList, 1)
+	newFrameBufs(frames)
+	f := frames[0].(*frameBuf)
+	f.frameLen = copy(f.raw, data)
+	f.sessId = f.raw[1]
+	v.w.processFrame(ctx, f)
+}
+
+// ReleaseFrames returns every frame still held for reassembly to the frame pool and forgets all
+// reassembly lists (what worker.cleanup does after two idle intervals).
+func (v VerifWorker) ReleaseFrames() {
+	for epoch, l := range v.w.rlists {
+		l.removeAll()
+		delete(v.w.rlists, epoch)
+	}
+}
